@@ -108,30 +108,33 @@ func xsdDuration(d time.Duration) []byte {
 		return []byte("PT0S")
 	}
 	v := make([]byte, 0, 24)
+	// the magnitude as an unsigned number: -d is still negative for the most negative duration,
+	// for which nothing but "-P" was written
+	u := uint64(d)
 	if d < 0 {
 		v = append(v, '-')
-		d = -d
+		u = -u
 	}
 	v = append(v, 'P')
-	if days := d / (24 * time.Hour); days > 0 {
-		v = strconv.AppendInt(v, int64(days), 10)
+	if days := u / uint64(24*time.Hour); days > 0 {
+		v = strconv.AppendUint(v, days, 10)
 		v = append(v, 'D')
-		d -= days * 24 * time.Hour
+		u -= days * uint64(24*time.Hour)
 	}
-	if d > 0 {
+	if u > 0 {
 		v = append(v, 'T')
-		if h := d / time.Hour; h > 0 {
-			v = strconv.AppendInt(v, int64(h), 10)
+		if h := u / uint64(time.Hour); h > 0 {
+			v = strconv.AppendUint(v, h, 10)
 			v = append(v, 'H')
-			d -= h * time.Hour
+			u -= h * uint64(time.Hour)
 		}
-		if m := d / time.Minute; m > 0 {
-			v = strconv.AppendInt(v, int64(m), 10)
+		if m := u / uint64(time.Minute); m > 0 {
+			v = strconv.AppendUint(v, m, 10)
 			v = append(v, 'M')
-			d -= m * time.Minute
+			u -= m * uint64(time.Minute)
 		}
-		if d > 0 {
-			v = strconv.AppendFloat(v, d.Seconds(), 'f', -1, 64)
+		if u > 0 {
+			v = strconv.AppendFloat(v, time.Duration(u).Seconds(), 'f', -1, 64)
 			v = append(v, 'S')
 		}
 	}
